@@ -6,7 +6,7 @@ From Dials Require Import Base.Outcome Base.Runes Reflect.Ty Transform.RType Tra
   Transform.MFlatten Transform.MOthers Transform.Manglers Transform.Transformer
   Transform.WellFormed Transform.TransformerProofs Transform.AliasProofs Transform.ManglerProofs
   Transform.EmptyProofs Transform.FlattenProofs Transform.FuelProofs Transform.CounterpartSpec
-  Transform.SpecProofs Transform.AliasSpecProofs.
+  Transform.SpecProofs Transform.AliasSpecProofs Transform.EnvChainProofs.
 Import ListNotations.
 
 (* ReverseTranslate's running offset against what TranslateType recorded, for
@@ -179,7 +179,25 @@ Theorem flag_chain_lossless : forall fuel E tags tag te fs nm tt x filled,
   counterpart_spec E [MAlias tags; MFlatten tag 0%N te] (TStruct fs nm) tt filled.
 Proof. exact alias_flatten_chain_spec_l. Qed.
 
+(* the env chain end to end: [alias; flatten; (reformat | tag copy)*; string
+   cast].  Same types as above; filled: one text (or nil) per translated field,
+   in flattened order, each text parsing at the type of its leaf to a value
+   convertible to that type (text_ok; aleaves_fields lists the leaf types with
+   the alias copies).  Then ReverseTranslate returns exactly what the by-name
+   specification computes (parse.String of the text found under the leaf's
+   flattened name, aliases picked, structs nil iff nothing below is set), or
+   the "both names" error with its class. *)
+Theorem env_chain_lossless : forall fuel E tags tag te tg fs nm tt x filled,
+  Forall (fun m => is_tagstage m = true) tg ->
+  wf_fields fs = true -> simple_fields fs = true -> alias_ok_fields tags fs = true ->
+  translate fuel (MAlias tags :: MFlatten tag 0%N te :: tg ++ [MStrCast]) (TStruct fs nm) = Ok (tt, x) ->
+  Forall2 (text_ok E) filled (aleaves_fields tags fs) ->
+  Some (reverse fuel E (MAlias tags :: MFlatten tag 0%N te :: tg ++ [MStrCast]) x (tt, VStruct filled)) =
+  counterpart_spec E (MAlias tags :: MFlatten tag 0%N te :: tg ++ [MStrCast]) (TStruct fs nm) tt filled.
+Proof. exact env_chain_spec_l. Qed.
+
 Print Assumptions flag_chain_lossless.
+Print Assumptions env_chain_lossless.
 Print Assumptions offsets_partition.
 Print Assumptions layer_is_pointwise.
 Print Assumptions alias_lossless.
